@@ -317,6 +317,30 @@ def rule_witness(ctx):
         ctx.notes.append("witness output tail: " + out[-1500:])
 
 
+def rule_event_source_mode(ctx, fx, config):
+    """SIBLING:event-source-mode — every entry point builds its event source in the same mode: the `stop_at_doc_end` flag of
+    `LiveEvents::from_str` / `from_reader` is the constant `false` at every call (the single-document entry points reject a
+    second document themselves, in one shared way).  An entry point that switches the source into its own single-document
+    mode reports a second document at a different place — or as a different error — than its siblings."""
+    n = 0
+    for ctor in ("live_events::LiveEvents::from_reader", "live_events::LiveEvents::from_str"):
+        g = fx.fn(ctor)
+        names = [g.local_name(i) for i in range(1, g.nargs + 1)]
+        if "stop_at_doc_end" not in names:
+            raise MissingAnchor("%s has no `stop_at_doc_end` parameter" % ctor)
+        idx = names.index("stop_at_doc_end")
+        for f, b in fx.callers.get(ctor, []):
+            if f.npath.startswith("live_events::tests") or "::tests::" in f.npath:
+                continue
+            n += 1
+            t = f.blocks[b]["term"]
+            with f.deep():
+                a = f.sym_operand(t["args"][idx])
+            ctx.check(a == ("const", False, "bool"), "SIBLING", "C09:SIBLING:event-source-mode:%s" % f.name, "the event source is built with stop_at_doc_end = false",
+                      "%s builds its event source with stop_at_doc_end = %s: a stream with a second document is reported differently (place or kind of error) than by the other entry points" % (f.name, render(a)[:30]), config, ctx.where(f, b))
+    ctx.floor("SIBLING.event-source-constructions", n, 6, config)
+
+
 def run(ctx):
     for config in ctx.configs:
         fx = ctx.facts(config)
@@ -328,6 +352,7 @@ def run(ctx):
         ctx.floor("PROTO.p4", n4, 6, config)
         rule_cfg_threaded(ctx, fx, config)
         rule_bom(ctx, fx, config)
+        rule_event_source_mode(ctx, fx, config)
         rule_slice(ctx, fx, config)
         rule_decoder(ctx, fx, config)
         rule_chunking(ctx, fx, config)
